@@ -266,8 +266,12 @@ class Worker(multiprocessing.Process):
 
 
     def remove_pending_answer(self, p_answer):
-        p_answer.notify()
+        #: The waiter leaves the registry before its caller is woken: the
+        #: caller is free to send again at once, with the same Hop-by-Hop
+        #: identifier (a retry), and what would be removed afterwards is the
+        #: waiter of that new exchange.
         self.pending_answers.pop(p_answer.msg.header.hop_by_hop, None)
+        p_answer.notify()
 
 
     def is_send_queue_empty(self):
